@@ -53,6 +53,10 @@ pub struct Config {
     /// DefaultKeyBuilder computes for 0..n, the validator is `Always`, the Coster values everything 0)
     #[serde(default)]
     pub defaults: bool,
+    /// the first clear() and the first wait() of the case find the processor busy elsewhere for
+    /// this many milliseconds of *real* time (sync flavour; rare: each such case costs that long)
+    #[serde(default)]
+    pub patience_ms: u64,
 }
 
 #[derive(Clone, Debug, PartialEq, Eq, Serialize, Deserialize, Hash)]
@@ -111,6 +115,8 @@ pub struct Case {
 
 #[derive(Clone, Debug, Default, Serialize)]
 pub struct Feats {
+    pub patient_clears: u32,
+    pub patient_waits: u32,
     pub steps: u32,
     pub admissions: u32,
     pub admissions_with_eviction: u32,
@@ -329,6 +335,8 @@ pub struct Interp<'a> {
     /// TTLs would hold it; only kept while the premise of C04 holds by construction (`smap_on`)
     smap: BTreeMap<u64, (Val, i64)>,
     smap_on: bool,
+    patience_left: u64,
+    wait_patience_left: u64,
     /// when the metrics last restarted from zero (construction, clear())
     metrics_since: i64,
     metrics_bad_before_clear: bool,
@@ -418,6 +426,7 @@ impl<'a> Interp<'a> {
             idx.sort_unstable();
             !idx.windows(2).any(|w| w[0] == w[1])
         };
+        let patience_left = cfg.patience_ms;
         Ok(Interp {
             cfg,
             sut,
@@ -464,6 +473,8 @@ impl<'a> Interp<'a> {
             overdue_survivors: BTreeSet::new(),
             smap: BTreeMap::new(),
             smap_on,
+            patience_left,
+            wait_patience_left: patience_left,
             metrics_since: now,
             metrics_bad_before_clear: false,
             interposed_then_clear: false,
@@ -2079,7 +2090,24 @@ impl<'a> Interp<'a> {
             }
         }
         let serial_at_call = self.serial.get();
-        let (r, steps) = self.sut.clear(pre);
+        // (rarely: the processor is busy elsewhere for a second or so of real time after the clear
+        // signal was queued - a clear() that gives up waiting returns before anything was cleared)
+        let patient = if self.patience_left > 0 && !self.in_interposed_op && !self.sut.is_async() { self.sut.clear_patient(pre, self.patience_left) } else { None };
+        let (r, steps) = match patient {
+            Some((r, steps, early)) => {
+                self.patience_left = 0;
+                self.feats.patient_clears += 1;
+                if early {
+                    self.fail(
+                        "clear_returned_before_processed",
+                        &["C11", "C02"],
+                        format!("clear() returned {:?} while its signal was still queued and the processor had not touched it ({} ms after the call)", r, self.cfg.patience_ms),
+                    );
+                }
+                (r, steps)
+            }
+            None => self.sut.clear(pre),
+        };
         let log = self.sut.take_log();
         let nsteps = steps.len();
         self.tr(|| format!("clear() = {:?} ({} processor steps while waiting, {} items were buffered)", r, nsteps, had_pending));
@@ -2163,6 +2191,11 @@ impl<'a> Interp<'a> {
         // "the buffer is full" is the precondition under which wait() may fail: read off the model
         // while it mirrors the implementation, off the real buffer once it does not
         let full = if self.m.synced { self.m.pending.len() >= self.cfg.buffer_size } else { self.sut.pending().0 >= self.sut.buffer_cap() };
+        if self.wait_patience_left > 0 && !self.in_interposed_op && !self.sut.is_async() && !full {
+            self.sut.set_wait_patience(self.wait_patience_left);
+            self.wait_patience_left = 0;
+            self.feats.patient_waits += 1;
+        }
         let (r, steps) = self.sut.wait();
         let n = steps.len();
         self.tr(|| format!("wait() = {:?} after {} processor steps", r, n));
